@@ -379,6 +379,15 @@ parse_next_record_header:
             ssl->extFlags.got_early_data = 0;
         }
 
+        if (ssl->rec.len <= AEAD_TAG_LEN(ssl))
+        {
+            /* Nothing but the tag: a TLSInnerPlaintext has at least its
+               content type octet (RFC 8446, 5.4: no non-zero octet in the
+               cleartext).  Not every cipher refuses to deprotect this. */
+            ssl->err = SSL_ALERT_UNEXPECTED_MESSAGE;
+            psTraceErrr("Protected record without content type\n");
+            goto encodeResponse;
+        }
         ptLen = ssl->rec.len - AEAD_TAG_LEN(ssl);
         ptLen--; /* TLSInnerPlaintext type. */
 
